@@ -32,6 +32,12 @@ def main():
         sys.exit("/repo has uncommitted changes")
     for mid in ids:
         d = os.path.join(SEEDED, mid)
+        if os.path.exists(os.path.join(d, "retired.json")):
+            print(mid, "retired (see retired.json)", flush=True)
+            continue
+        if subprocess.run(["git", "-C", "/repo", "apply", "--check", os.path.join(d, "patch.diff")], capture_output=True).returncode != 0:
+            print(mid, "PATCH DOES NOT APPLY to the current tree: rebase it (lib/confirm_seeded.py afterwards)", flush=True)
+            continue
         prop = mid.split("_")[0]
         res = {"id": mid, "tier": tier, "seed": os.environ.get("VERIF_SEED", "1"), "checks": {}}
         for pid in [prop] + ALSO.get(mid, []):
